@@ -445,6 +445,28 @@ theorem cairn_legal_record_no_panic :
       some (.think (some Facts.maxThink) (some .minThink)) := by
   decide +kernel
 
+/-! ## what the patch does not cure: a scripted move that is illegal on a foreign record -/
+
+/-- bot Black, double stack, 5×5, the server replays the legal record `a3 c3 Sb3 d3 b3>` (White's ply 2 is a wall next to
+its stone, Black's own ply 3 a flat that is not next to `a3`, White's wall then moves onto `c3` = `whitePlace`: accepted) -/
+def Ex.dsIllegalEvs : List (Compose.Ev Move) :=
+  [.enter 0 quiet, .leave 0 zm, srv ["P", "A3"] (place 0 2), srv ["P", "C3"] (place 2 2), srv ["P", "B3", "W"] (wall 1 2),
+   srv ["P", "D3"] (place 3 2), srv ["M", "B3", "C3", "1"] (slideR 1 2), tm, .enter 1 quiet]
+
+/-- **`foreign_record_scripted_move_illegal`** — NOT a panic and not cured by `fixes/C07-fpa-script-declines.diff` (both trees):
+on this legal record the double-stack script answers `d3<` — a slide onto White's wall, illegal by the rule book.  The bot
+loop rejects it (`ai returned bad move`), `handleMove` returns `false`, `PlayGame` calls it again, the next thinker gets the
+same answer: the bot offers an illegal move forever (the correspondence sees the call counter run into its cap, real code
+and model alike).  Nothing illegal is transmitted and the loop still ends when the server ends the game, so C07 as stated
+holds; C20 quantifies over openings played by the rule.  A follow-up patch would let `Friendly.GetMove` try the scripted
+move (`p.Move(m)`) and search when it is rejected (`fixes/proposed/C07-fpa-script-illegal-on-foreign-record.msg`). -/
+theorem foreign_record_scripted_move_illegal :
+    ((go (conf .black 5 (.friendly (some .doubleStack)) true) dsIllegalEvs).calls.map (·.act)).getLast? = some (.move (slideL 3 2)) ∧
+    (go (conf .black 5 (.friendly (some .doubleStack)) true) dsIllegalEvs).dead = none ∧
+    ((playAll (Spec.FPA.init 5).cur [place 0 2, place 2 2, wall 1 2, place 3 2, slideR 1 2]).map (·.ply)) = some 5 ∧
+    playAll (Spec.FPA.init 5).cur [place 0 2, place 2 2, wall 1 2, place 3 2, slideR 1 2, slideL 3 2] = none := by
+  decide +kernel
+
 /-- non-vacuity of `bot_never_dead_declining` / `MovesOK` / `ChkOK`: the double-stack schedule is an event list of the
 patched composed system with quiet check verdicts, and at its `enter` events the record holds placements and slides -/
 example :
